@@ -16,6 +16,10 @@ type binaryStreamPProfProtoDec struct {
 }
 
 func ns(timestamp uint64) uint64 {
+	// 0 stays 0 under multiplication: without this the loop below never ends
+	if timestamp == 0 {
+		return 0
+	}
 	for timestamp < 1000000000000000000 {
 		timestamp *= 10
 	}
